@@ -28,6 +28,12 @@ use std::sync::atomic::{AtomicBool, AtomicU64, Ordering};
 use std::sync::{Arc, Mutex};
 use std::time::Duration;
 
+// the system-call tap: results of the non-blocking calls on tracked sockets, for the trace acceptor of IoModel
+#[path = "iotap/tap.rs"]
+mod tap;
+/// "not tracked"
+const NOF: u64 = u64::MAX;
+
 fn envs(k: &str, d: &str) -> String {
     std::env::var(k).unwrap_or_else(|_| d.into())
 }
@@ -107,6 +113,7 @@ trait End: Send {
     fn recv(&mut self, buf: &mut [u8]) -> std::io::Result<usize>;
     fn send(&mut self, buf: &[u8]) -> std::io::Result<usize>;
     fn dgram(&self) -> bool;
+    fn rawfd(&self) -> i32;
 }
 impl End for may::os::unix::net::UnixStream {
     fn set_rto(&self, d: Option<Duration>) {
@@ -120,6 +127,9 @@ impl End for may::os::unix::net::UnixStream {
     }
     fn dgram(&self) -> bool {
         false
+    }
+    fn rawfd(&self) -> i32 {
+        self.as_raw_fd()
     }
 }
 impl End for may::net::TcpStream {
@@ -135,6 +145,9 @@ impl End for may::net::TcpStream {
     fn dgram(&self) -> bool {
         false
     }
+    fn rawfd(&self) -> i32 {
+        self.as_raw_fd()
+    }
 }
 impl End for may::os::unix::net::UnixDatagram {
     fn set_rto(&self, d: Option<Duration>) {
@@ -149,6 +162,9 @@ impl End for may::os::unix::net::UnixDatagram {
     fn dgram(&self) -> bool {
         true
     }
+    fn rawfd(&self) -> i32 {
+        self.as_raw_fd()
+    }
 }
 impl End for may::net::UdpSocket {
     fn set_rto(&self, d: Option<Duration>) {
@@ -162,6 +178,9 @@ impl End for may::net::UdpSocket {
     }
     fn dgram(&self) -> bool {
         true
+    }
+    fn rawfd(&self) -> i32 {
+        self.as_raw_fd()
     }
 }
 
@@ -220,7 +239,7 @@ const MSG: usize = 24;
 
 // -------------------------------------------------------------------------------------------- timed
 
-fn timed_reader(mut b: Box<dyn End>, cn: usize, conn: Arc<Conn>, tx: may::sync::mpsc::Sender<(u64, u64, u64)>, mut rng: Rng, rounds: u64, fixed: u64, noto: u64) {
+fn timed_reader(mut b: Box<dyn End>, cn: usize, conn: Arc<Conn>, tx: may::sync::mpsc::Sender<(u64, u64, u64)>, mut rng: Rng, rounds: u64, fixed: u64, noto: u64, tf: u64) {
     let c = mayv::ctx();
     let stalls = stalls_on();
     let dgram = b.dgram();
@@ -242,7 +261,17 @@ fn timed_reader(mut b: Box<dyn End>, cn: usize, conn: Arc<Conn>, tx: may::sync::
         let _ = tx.send((r, t0, delay));
         brk();
         let want = 1 + (rng.next() % 40) as usize;
+        if tf != NOF {
+            tap::call_rd(tf, dgram, if no_timeout { None } else { Some(a) }, if dgram { 64 } else { want });
+        }
         let res = b.recv(&mut buf[..if dgram { 64 } else { want }]);
+        if tf != NOF {
+            match &res {
+                Ok(n) => tap::ret_ok(tf, off, *n),
+                Err(e) if is_timeout(e) => tap::ret_timeout(tf),
+                Err(_) => tap::ret_err(tf),
+            }
+        }
         let t1 = c.now();
         match res {
             Ok(0) => {
@@ -304,7 +333,7 @@ fn timed_reader(mut b: Box<dyn End>, cn: usize, conn: Arc<Conn>, tx: may::sync::
     println!("SUMMARY conn={cn} ok={n_ok} timeouts={n_to} (data sent in time but timed out: {n_late}) consumed={off}");
 }
 
-fn timed_feeder(mut a: Box<dyn End>, cn: usize, conn: Arc<Conn>, rx: may::sync::mpsc::Receiver<(u64, u64, u64)>) {
+fn timed_feeder(mut a: Box<dyn End>, cn: usize, conn: Arc<Conn>, rx: may::sync::mpsc::Receiver<(u64, u64, u64)>, tf: u64) {
     let c = mayv::ctx();
     let dgram = a.dgram();
     let mut cum = 0u64;
@@ -320,7 +349,17 @@ fn timed_feeder(mut a: Box<dyn End>, cn: usize, conn: Arc<Conn>, rx: may::sync::
         let base = if dgram { cum * MSG as u64 } else { cum };
         let msg: Vec<u8> = (0..MSG as u64).map(|i| gen(conn.seed, base + i)).collect();
         brk();
-        match a.send(&msg) {
+        if tf != NOF {
+            tap::call_wr(tf, dgram, cum, MSG);
+        }
+        let res = a.send(&msg);
+        if tf != NOF {
+            match &res {
+                Ok(n) => tap::ret_ok(tf, cum, *n),
+                Err(_) => tap::ret_err(tf),
+            }
+        }
+        match res {
             Ok(n) if n == MSG => {}
             Ok(n) => c.fail(format!("conn {cn}: send of {MSG} bytes reported {n}")),
             Err(e) => {
@@ -346,6 +385,13 @@ fn mode_timed(ctx: &Ctx) {
     let mut joins = vec![];
     for cn in 0..conns {
         let Some((a, b)) = make_pair(ctx, &sock) else { return };
+        // MAYV_TAP=1: the sockets of unix connections are tracked (model descriptors 2 cn, 2 cn + 1)
+        let tracked = tap::on() && (sock == "unixstream" || sock == "unixdgram");
+        let (tfa, tfb) = if tracked { (2 * cn as u64, 2 * cn as u64 + 1) } else { (NOF, NOF) };
+        if tracked {
+            tap::track(a.rawfd(), tfa, a.dgram());
+            tap::track(b.rawfd(), tfb, b.dgram());
+        }
         let conn = Arc::new(Conn { seed: ctx.rand(), sent: Mutex::new(vec![]), rounds_done: AtomicBool::new(false) });
         let (tx, rx) = may::sync::mpsc::channel();
         let in_co = match rd_sel.as_str() {
@@ -355,8 +401,8 @@ fn mode_timed(ctx: &Ctx) {
         };
         let rng = Rng(ctx.rand() | 1);
         let (c1, c2) = (conn.clone(), conn.clone());
-        joins.push(start(ctx, format!("c{cn}.f"), false, 2 * cn, Box::new(move || timed_feeder(a, cn, c1, rx))));
-        joins.push(start(ctx, format!("c{cn}.r"), in_co, 2 * cn + 1, Box::new(move || timed_reader(b, cn, c2, tx, rng, rounds, fixed, noto))));
+        joins.push(start(ctx, format!("c{cn}.f"), false, 2 * cn, Box::new(move || timed_feeder(a, cn, c1, rx, tfa))));
+        joins.push(start(ctx, format!("c{cn}.r"), in_co, 2 * cn + 1, Box::new(move || timed_reader(b, cn, c2, tx, rng, rounds, fixed, noto, tfb))));
     }
     for j in joins {
         j();
@@ -368,18 +414,34 @@ fn mode_timed(ctx: &Ctx) {
 /// a checked stream transfer on its own connection, running while the cancel happens
 fn bystander(ctx: &Ctx, joins: &mut Vec<Box<dyn FnOnce()>>, base: usize) {
     let (mut a, mut b) = may::os::unix::net::UnixStream::pair().expect("pair");
+    // MAYV_TAP=1: model descriptors 2, 3; a small stream, so that no write finds the buffer full
+    let (tfa, tfb) = if tap::on() { (2u64, 3u64) } else { (NOF, NOF) };
+    if tap::on() {
+        tap::track(a.as_raw_fd(), tfa, false);
+        tap::track(b.as_raw_fd(), tfb, false);
+    }
     let seed = ctx.rand();
-    let total = 3000 + ctx.rand() % 6000;
+    let total = if tap::on() { 300 + ctx.rand() % 600 } else { 3000 + ctx.rand() % 6000 };
     let (r1, r2) = (ctx.rand() | 1, ctx.rand() | 1);
     joins.push(start(ctx, "by.w".into(), true, base, Box::new(move || {
         let c = mayv::ctx();
         let mut rng = Rng(r1);
         let mut off = 0u64;
         while off < total {
-            let n = (1 + rng.next() % 700).min(total - off) as usize;
+            let n = (1 + rng.next() % if tap::on() { 70 } else { 700 }).min(total - off) as usize;
             let buf: Vec<u8> = (0..n as u64).map(|i| gen(seed, off + i)).collect();
             brk();
-            match a.write(&buf) {
+            if tfa != NOF {
+                tap::call_wr(tfa, false, off, n);
+            }
+            let res = a.write(&buf);
+            if tfa != NOF {
+                match &res {
+                    Ok(k) => tap::ret_ok(tfa, off, *k),
+                    Err(_) => tap::ret_err(tfa),
+                }
+            }
+            match res {
                 Ok(k) if k >= 1 && k <= n => off += k as u64,
                 other => {
                     c.fail(format!("bystander: write failed: {other:?}"));
@@ -391,15 +453,31 @@ fn bystander(ctx: &Ctx, joins: &mut Vec<Box<dyn FnOnce()>>, base: usize) {
             }
         }
     })));
-    joins.push(start(ctx, "by.r".into(), ctx.rand() % 2 == 0, base + 1, Box::new(move || {
+    let by_co = ctx.rand() % 2 == 0;
+    let by_co = match envs("MAYV_RD", "mix").as_str() {
+        "co" => true,
+        "th" => false,
+        _ => by_co,
+    };
+    joins.push(start(ctx, "by.r".into(), by_co, base + 1, Box::new(move || {
         let c = mayv::ctx();
         let mut rng = Rng(r2);
         let mut off = 0u64;
         let mut buf = [0u8; 512];
         loop {
-            let n = 1 + (rng.next() % 512) as usize;
+            let n = 1 + (rng.next() % if tap::on() { 64 } else { 512 }) as usize;
             brk();
-            match b.read(&mut buf[..n]) {
+            if tfb != NOF {
+                tap::call_rd(tfb, false, None, n);
+            }
+            let res = b.read(&mut buf[..n]);
+            if tfb != NOF {
+                match &res {
+                    Ok(k) => tap::ret_ok(tfb, off, *k),
+                    Err(_) => tap::ret_err(tfb),
+                }
+            }
+            match res {
                 Ok(0) => break,
                 Ok(k) => {
                     if let Some(i) = (0..k).find(|&i| buf[i] != gen(seed, off + i as u64)) {
@@ -463,6 +541,12 @@ fn mode_cancel(ctx: &Ctx) {
     }
     if what == "read" {
         let Some((mut a, mut b)) = make_pair(ctx, &sock) else { return };
+        let tracked = tap::on() && (sock == "unixstream" || sock == "unixdgram");
+        let (tfa, tfb) = if tracked { (0u64, 1u64) } else { (NOF, NOF) };
+        if tracked {
+            tap::track(a.rawfd(), tfa, a.dgram());
+            tap::track(b.rawfd(), tfb, b.dgram());
+        }
         let seed = ctx.rand();
         let fl = Flag(dropped.clone());
         let got = Arc::new(AtomicU64::new(0));
@@ -471,6 +555,7 @@ fn mode_cancel(ctx: &Ctx) {
             may::coroutine::Builder::new().name("victim".into()).spawn(move || {
                 let _fl = fl;
                 let c = mayv::ctx();
+                tap::actor(0);
                 b.set_rto(if dur == 0 { None } else { Some(Duration::from_nanos(dur)) });
                 let dgram = b.dgram();
                 let mut off = 0u64;
@@ -478,7 +563,18 @@ fn mode_cancel(ctx: &Ctx) {
                 loop {
                     brk();
                     let t0 = c.now();
-                    match b.recv(&mut buf[..if dgram { 64 } else { 17 }]) {
+                    if tfb != NOF {
+                        tap::call_rd(tfb, dgram, if dur == 0 { None } else { Some(armed(dur)) }, if dgram { 64 } else { 17 });
+                    }
+                    let res = b.recv(&mut buf[..if dgram { 64 } else { 17 }]);
+                    if tfb != NOF {
+                        match &res {
+                            Ok(n) => tap::ret_ok(tfb, off, *n),
+                            Err(e) if is_timeout(e) => tap::ret_timeout(tfb),
+                            Err(_) => tap::ret_err(tfb),
+                        }
+                    }
+                    match res {
                         Ok(0) if !dgram => {
                             c.fail("victim: end of stream although the peer is alive".into());
                             return;
@@ -512,7 +608,17 @@ fn mode_cancel(ctx: &Ctx) {
         for k in 0..nmsg {
             let msg: Vec<u8> = (0..MSG as u64).map(|i| gen(seed, k * MSG as u64 + i)).collect();
             brk();
-            if a.send(&msg).ok() != Some(MSG) {
+            if tfa != NOF {
+                tap::call_wr(tfa, a.dgram(), if a.dgram() { k } else { k * MSG as u64 }, MSG);
+            }
+            let res = a.send(&msg);
+            if tfa != NOF {
+                match &res {
+                    Ok(n) => tap::ret_ok(tfa, if a.dgram() { k } else { k * MSG as u64 }, *n),
+                    Err(_) => tap::ret_err(tfa),
+                }
+            }
+            if res.ok() != Some(MSG) {
                 ctx.fail("feeder: send failed".into());
             }
             if ctx.rand() % 2 == 0 {
@@ -520,6 +626,7 @@ fn mode_cancel(ctx: &Ctx) {
             }
         }
         cancel_delay(ctx);
+        tap::cancel(0);
         unsafe { victim.coroutine().cancel() };
         check_cancel_join(ctx, victim.join(), "read");
         if !dropped.load(Ordering::SeqCst) {
@@ -530,7 +637,17 @@ fn mode_cancel(ctx: &Ctx) {
             a.set_rto(None);
             let mut buf = [0u8; 8];
             brk();
-            match a.recv(&mut buf) {
+            if tfa != NOF {
+                tap::call_rd(tfa, false, None, 8);
+            }
+            let res = a.recv(&mut buf);
+            if tfa != NOF {
+                match &res {
+                    Ok(n) => tap::ret_ok(tfa, 0, *n),
+                    Err(_) => tap::ret_err(tfa),
+                }
+            }
+            match res {
                 Ok(0) => {}
                 // the victim was closed with unread data in its queue: the kernel reports that as a reset
                 Err(e) if e.kind() == std::io::ErrorKind::ConnectionReset => {}
@@ -833,12 +950,19 @@ fn main() {
         cfg.sched_files = l.split(',').filter(|x| !x.is_empty()).map(|x| &*Box::leak(x.to_string().into_boxed_str())).collect();
     }
     let mode = envs("MAYV_MODE", "timed");
-    run(cfg, move |ctx| match mode.as_str() {
+    run(cfg, move |ctx| {
+        tap::enable();
+        run_mode(ctx, &mode)
+    })
+}
+
+fn run_mode(ctx: &Ctx, mode: &str) {
+    match mode {
         "timed" => mode_timed(ctx),
         "cancel" => mode_cancel(ctx),
         "shared" => mode_shared(ctx),
         "connect" => mode_connect(ctx),
         "tdrop" => mode_tdrop(ctx),
         o => panic!("MAYV_MODE={o}"),
-    })
+    }
 }
